@@ -345,14 +345,19 @@ func propC16Cache(c c16CacheCase) (ev.Outcome, error) {
 	// (2) every returned value comes from a fetch of that key that ended before the Get returned, or from a SetMap
 	for _, g := range gets {
 		if g.err {
+			// the error must stem from a failing fetch of that key whose owning Get had not
+			// yet returned when this Get started (the caller joined that call, or it is its
+			// own fetch). The fetch function itself may have finished just before this Get
+			// started: the call stays registered until its owner has taken the lock again.
 			ok := false
-			for _, f := range fl {
-				if f.key == g.key && f.err && f.end < g.end && f.end > g.start {
+			for k, f := range fetches {
+				owner := gets[k]
+				if f.key == g.key && f.err && owner != nil && f.start < g.end && owner.end > g.start {
 					ok = true
 				}
 			}
 			if !ok {
-				return o, fmt.Errorf("request cache: Get(%s) by worker %d returned an error but no failing fetch for that key completed during the call", g.key, g.g)
+				return o, fmt.Errorf("request cache: Get(%s) by worker %d returned an error but no failing fetch for that key belongs to a call that overlaps it", g.key, g.g)
 			}
 			continue
 		}
